@@ -79,12 +79,17 @@ def _runnable(model):
     return m
 
 
-def _same(a, b):
+def _same(a, b, approx=False):
     if len(a) != len(b):
         return False
     for x, y in zip(a, b):
         x, y = np.asarray(x), np.asarray(y)
-        if x.dtype != y.dtype or x.shape != y.shape or not np.array_equal(x, y, equal_nan=x.dtype.kind == "f"):
+        if x.dtype != y.dtype or x.shape != y.shape:
+            return False
+        if approx and x.dtype.kind == "f":
+            if not np.allclose(x, y, rtol=1e-4, atol=1e-5, equal_nan=True):
+                return False
+        elif not np.array_equal(x, y, equal_nan=x.dtype.kind == "f"):
             return False
     return True
 
@@ -141,6 +146,14 @@ def _model_nodes(model):
                 if a.type == a.GRAPH:
                     for m in _all_nodes(a.g):
                         yield f"{f.domain}:{f.name}:{f.overload}", m
+
+
+def _all_function_nodes(f):
+    for n in f.node:
+        yield n
+        for a in n.attribute:
+            if a.type == a.GRAPH:
+                yield from _all_nodes(a.g)
 
 
 def _used_names(model):
@@ -267,6 +280,7 @@ class HostResult:
         self.exc = None
         self.shadow = []
         self.instances = []
+        self.unmodelled_expected = 0
 
 
 def _exc_chain(e):
@@ -361,6 +375,10 @@ def eval_host(ctx, label, host, families, rng, stream="gen", want_ref=True, chec
     res.sweeps = len(tracer.sweeps)
     fam_key = "+".join(families)
     inst = reference_instances(host, families)
+    approx = any(G.FAMILIES[f].get("approx") for f in families)          # replacement is a different kernel (contrib op)
+    if any(G.FAMILIES[f].get("new_domain") for f in families):
+        want_ref = False                                                 # onnx.reference has no contrib kernels
+    multi_root = any(G.FAMILIES[f].get("roots") for f in families)
     if exc is not None:
         res.exc = exc
         chain = _exc_chain(exc)
@@ -379,6 +397,11 @@ def eval_host(ctx, label, host, families, rng, stream="gen", want_ref=True, chec
     res.count = count
     res.fired_splices = sum(len(r["apps"]) for r in tracer.sweeps)
     res.unmodelled = [u for r in tracer.sweeps for u in r["unmodelled"]]
+    res.unmodelled_expected = 0
+    if multi_root:
+        # patterns with several output nodes are outside the Coq model (single root): observed by the oracles only
+        res.unmodelled_expected = len(res.unmodelled)
+        res.unmodelled = [u for u in res.unmodelled if "several output nodes" not in u and "not produced by the root" not in u]
 
     shadow0 = shadowing_names(model)
     shadow1 = shadowing_names(new) - shadow0
@@ -401,7 +424,8 @@ def eval_host(ctx, label, host, families, rng, stream="gen", want_ref=True, chec
                                                "subgraph's (empty or defaulted) opset imports instead of the model's; onnx.checker rejects the model"))
     # -- validity
     try:
-        onnx.checker.check_model(new, full_check=True)
+        # strict type inference stops at a contrib op the onnx package has no schema for
+        onnx.checker.check_model(new, full_check=not any(G.FAMILIES[f].get("new_domain") for f in families))
     except Exception as e:
         m = str(e)
         kind = "not-topologically-sorted" if "topologically sorted" in m else "invalid-model"
@@ -424,12 +448,16 @@ def eval_host(ctx, label, host, families, rng, stream="gen", want_ref=True, chec
     # -- opset imports / functions
     imp0 = {(o.domain, o.version) for o in model.opset_import}
     imp1 = {(o.domain, o.version) for o in new.opset_import}
-    doms1 = {n.domain for _, n in _model_nodes(new)}
+    doms1 = {n.domain for w, n in _model_nodes(new) if w == "main"}
     for d, v in imp0:
         if d in doms1 and (d, v) not in imp1:
             bad("opset-import-lost", f"import of domain {d!r} version {v} lost or changed")
     if not doms1 <= {d for d, _ in imp1}:
-        bad("opset-import-missing", f"domains {sorted(doms1 - {d for d, _ in imp1})} used but not imported")
+        bad("opset-import-missing", f"domains {sorted(doms1 - {d for d, _ in imp1})} used by graph nodes but not imported by the model")
+    for f in new.functions:
+        fdoms = {n.domain for n in _all_function_nodes(f)}
+        if not fdoms <= {o.domain for o in f.opset_import}:
+            bad("opset-import-missing", f"function {f.name}: domains {sorted(fdoms - {o.domain for o in f.opset_import})} used but not imported by the function")
     f0 = {(f.domain, f.name, f.overload) for f in model.functions}
     f1 = {(f.domain, f.name, f.overload) for f in new.functions}
     called1 = {(n.domain, n.op_type, n.overload) for _, n in _model_nodes(new)}
@@ -472,7 +500,7 @@ def eval_host(ctx, label, host, families, rng, stream="gen", want_ref=True, chec
         for f in ([] if known_invalid else feeds):
             want = _ort_run(model, f)
             got = _ort_run(new_x, f)
-            if not _same(want, got):
+            if not _same(want, got, approx):
                 bad("not-equivalent", "onnxruntime: outputs differ before/after: "
                     f"{[np.asarray(a).ravel()[:4].tolist() for a in want]} vs {[np.asarray(a).ravel()[:4].tolist() for a in got]}")
                 break
@@ -618,6 +646,10 @@ RULE_SETS = [
     # two rules, the first applicable one wins
     ["swap_add", "bin_nested"], ["bin_nested", "swap_add"], ["chain2", "single"], ["chain3", "chain2"],
     ["chain2_keep", "negneg"], ["chain2_fn", "single"], ["mul1_elim", "swap_mul"], ["dtrans", "chain2"],
+    # DAG-shaped patterns (shared pattern node at different depths, both operand orders, three consumers), ordinary,
+    # keeping and as_function; two output nodes sharing a producer; a replacement in a domain the host does not import
+    ["dag_a"], ["dag_b"], ["dag_a_fn"], ["dag_b_fn"], ["dag_a_keep"], ["dag3"], ["dag3_fn"], ["dag3_r_fn"],
+    ["two_out"], ["two_out_fn"], ["silu_ms"], ["dag_a_fn", "swap_add"], ["silu_ms", "single"],
 ]
 
 
@@ -695,6 +727,7 @@ def stream_generated(ctx, n_hosts):
         stats["splices"] += res.fired_splices
         stats["nested_hosts"] += 1 if nest else 0
         stats["unmodelled"] += 1 if res.unmodelled else 0
+        stats["splices_outside_model"] += res.unmodelled_expected
         fired_hist[min(res.count or 0, 5)] += 1
         for t in tags:
             stats["tag:" + t.split(":d")[0]] += 1
@@ -824,8 +857,10 @@ def stream_small(ctx, max_nodes, limit):
 
 # ---- targeted streams for the suspected / confirmed defects
 
-def stream_targeted(ctx):
+def stream_targeted(ctx, fixed_cases=None, fixed_wf=None):
     """Hosts aimed at mechanisms the generated families avoid on purpose."""
+    fixed_cases = [] if fixed_cases is None else fixed_cases
+    fixed_wf = [] if fixed_wf is None else fixed_wf
     import onnx
     from onnx import TensorProto, helper, numpy_helper
     from onnxscript import ir, rewriter
@@ -948,6 +983,59 @@ def stream_targeted(ctx):
     judge("C07:replacement-returns-pattern-input:interior", "Identity(u) -> u where u is an interior value", m,
           [orp.RewriteRule(pat4, rep4)], {"stream": "targeted", "case": "replacement-returns-input-interior"})
 
+    # (f) fixed hosts for mechanisms the random stream reaches only with some probability: the ONLY match sits in an
+    #     If branch / a Loop body / a function, for a replacement in a new domain and for DAG-shaped as_function patterns
+    import random
+    N = G.HNode
+
+    def inst(fam, x, y, p):
+        if fam == "silu_ms":
+            return [N("Sigmoid", [x], [p + "g"]), N("Mul", [x, p + "g"], [p + "o"])]
+        if fam in ("dag_a", "dag_a_fn"):
+            return [N("Add", [x, y], [p + "s"]), N("Sigmoid", [p + "s"], [p + "g"]), N("Mul", [p + "s", p + "g"], [p + "o"])]
+        if fam == "dag_b_fn":
+            return [N("Add", [x, y], [p + "s"]), N("Sigmoid", [p + "s"], [p + "g"]), N("Mul", [p + "g", p + "s"], [p + "o"])]
+        if fam == "dag3_fn":
+            return [N("Abs", [x], [p + "a"]), N("Neg", [p + "a"], [p + "t"]), N("Mul", [p + "a", p + "t"], [p + "m"]),
+                    N("Add", [p + "m", p + "a"], [p + "o"])]
+        if fam == "two_out_fn":
+            return [N("Abs", [x], [p + "a"]), N("Neg", [p + "a"], [p + "n"]), N("Relu", [p + "a"], [p + "r"]),
+                    N("Add", [p + "n", p + "r"], [p + "o"])]
+        raise AssertionError(fam)
+
+    base_ins = [("x0", "t"), ("x1", "t"), ("cond", "b"), ("trip", "i")]
+    for fam in ("silu_ms", "dag_a", "dag_a_fn", "dag_b_fn", "dag3_fn", "two_out_fn"):
+        for where in ("main", "if", "loop", "function"):
+            if where == "main":
+                g = G.HGraph(list(base_ins), inst(fam, "x0", "x1", "m") + [N("Neg", ["mo"], ["out"])], [("out", "t")])
+                host = G.Host(g, [], set())
+            elif where == "if":
+                tb = G.HGraph([], inst(fam, "x0", "x1", "t"), [("to", "t")])
+                eb = G.HGraph([], [N("Sub", ["x0", "x1"], ["eo"])], [("eo", "t")])
+                g = G.HGraph(list(base_ins), [N("If", ["cond"], ["out"], {}, {"then_branch": tb, "else_branch": eb})], [("out", "t")])
+                host = G.Host(g, [], set())
+            elif where == "loop":
+                body = G.HGraph([("it", "i"), ("ci", "b"), ("s_in", "t")], inst(fam, "s_in", "x1", "b") + [N("Identity", ["ci"], ["co"])],
+                                [("co", "b"), ("bo", "t")])
+                g = G.HGraph(list(base_ins), [N("Loop", ["trip", "", "x0"], ["out"], {}, {"body": body})], [("out", "t")])
+                host = G.Host(g, [], set())
+            else:
+                fg = G.HGraph([("fa", "t"), ("fb", "t")], inst(fam, "fa", "fb", "q"), [("qo", "t")])
+                g = G.HGraph(list(base_ins), [N("F0", ["x0", "x1"], ["out"], domain=G.DOM_HOST)], [("out", "t")])
+                host = G.Host(g, [("F0", fg)], set())
+            label = f"fixed:{fam}:{where}"
+            res, model = eval_host(ctx, label, host, [fam], random.Random(17), stream="fixed")
+            ctx.case(("fixed", fam, where, min(res.count or 0, 2)))
+            replay = {"stream": "fixed", "family": fam, "where": where, "model": model.SerializeToString().hex()}
+            for key, what in res.violations:
+                ctx.violation(key, f"{label}: {what}", replay)
+            if not res.violations and not res.count:
+                ctx.violation(f"C07:fixed:no-progress:{fam}:{where}", f"{label}: the only instance of the pattern did not fire", replay)
+            for u in res.unmodelled:
+                ctx.tie_broken("correspondence", "apply:unmodelled", f"{label}: {u}")
+            fixed_cases.extend(res.coq_cases)
+            fixed_wf.extend(res.wf_terms)
+
     # (e) empty rule list: the model comes back untouched
     m = mk([helper.make_node("Neg", ["x"], ["o"])], ["x"], ["o"])
     if rewriter.rewrite(m, []) is not m:
@@ -999,12 +1087,12 @@ def run(ctx):
     ctx.check_props()
 
     quick = ctx.tier == "quick"
-    n_hosts = 308 if quick else 2520
+    n_hosts = len(RULE_SETS) * (8 if quick else 60)
     cases, wf, meta, stats, hist, violated = stream_generated(ctx, n_hosts)
     c2, w2, st2 = stream_small(ctx, 4, 150 if quick else None)
     cases += c2
     wf += w2
-    stream_targeted(ctx)
+    stream_targeted(ctx, cases, wf)
     ir_diffs = stream_ir_path(ctx, 20 if quick else 120)
 
     failing, uncovered = coq_replay(ctx, cases)
@@ -1044,7 +1132,7 @@ def run(ctx):
               hosts_with_nesting=stats["nested_hosts"], fire_count_histogram={str(k): v for k, v in sorted(hist.items())},
               host_tags={k[4:]: v for k, v in sorted(stats.items()) if k.startswith("tag:")},
               small_hosts=st2["hosts"], small_hosts_fired=st2["fired_hosts"], rule_sets=len(RULE_SETS),
-              wf_checked=len(wf), keeping_applications_outside_proved_side_conditions=uncovered, proto_vs_ir_serialisation_diffs=ir_diffs,
+              wf_checked=len(wf), splices_of_patterns_with_several_output_nodes_outside_model=stats["splices_outside_model"], keeping_applications_outside_proved_side_conditions=uncovered, proto_vs_ir_serialisation_diffs=ir_diffs,
               rule="generated rules (pattern tree, transform in reemit/swap/double-transpose/x*1/x+0/Split/keep/as_function) x random hosts "
                    "(planted + chance instances, interleaved, overlapping, extra consumers, graph outputs, If/Loop/functions) + all small hosts")
     if ctx.tier == "thorough":
